@@ -85,10 +85,13 @@ structure PInv (done : List (HalfChain × κ)) (p : Partition κ) : Prop where
   sem : ∀ φ : HalfChain → κ, hsumφ done φ = psum p φ
   usrc : ∀ u ∈ p.ulist, ∃ hc ∈ done, u.nidl = hc.1.nidl ∧ hc.1.qnums[0]? = some u.qnum0
   vsrc : ∀ v ∈ p.vlist, v.nidl = -1 ∧ v.oids.length + 1 = v.qnums.length ∧
-    ∃ hc ∈ done, ∃ o, hc.1.oids = o :: v.oids
+    ∃ hc ∈ done, ∃ o q, hc.1.oids = o :: v.oids ∧ hc.1.qnums = q :: v.qnums
   qmatch : ∀ e ∈ p.edges, ∀ u v, p.ulist[e.1]? = some u → p.vlist[e.2]? = some v → v.qnums[0]? = some u.qnum1
   unodup : p.ulist.Nodup
   vnodup : p.vlist.Nodup
+  nonempty : done ≠ [] → p.edges ≠ []
+  uedge : ∀ i, i < p.ulist.length → ∃ j, (i, j) ∈ p.edges
+  hcedge : ∀ hc ∈ done, ∃ e ∈ p.edges, ∃ u, p.ulist[e.1]? = some u ∧ u.nidl = hc.1.nidl
 
 /-- `if x in l: i = l.index(x) else: l.append(x); i = len(l) - 1` -/
 theorem index_choice {α : Type} [DecidableEq α] (l : List α) (x : α) (l' : List α) (i : Nat)
@@ -189,7 +192,7 @@ theorem partitionStep_inv (done : List (HalfChain × κ)) (p p' : Partition κ) 
       subst hu
       exact ⟨rfl, hq0⟩
   have hvsrc : ∀ v' ∈ vlist', v'.nidl = -1 ∧ v'.oids.length + 1 = v'.qnums.length ∧
-      ∃ hc ∈ done ++ [(chain, coeff)], ∃ o, hc.1.oids = o :: v'.oids := by
+      ∃ hc ∈ done ++ [(chain, coeff)], ∃ o q, hc.1.oids = o :: v'.oids ∧ hc.1.qnums = q :: v'.qnums := by
     intro v' hv'
     rw [hexv, mem_append] at hv'
     rcases hv' with hv' | hv'
@@ -198,7 +201,7 @@ theorem partitionStep_inv (done : List (HalfChain × κ)) (p p' : Partition κ) 
     · have := (hexv' v' hv').1
       subst this
       subst hv
-      exact ⟨rfl, hvlen, (chain, coeff), by simp, oid0, hoids⟩
+      exact ⟨rfl, hvlen, (chain, coeff), by simp, oid0, q0, hoids, hqn⟩
   have hqm_new : ∀ u' v', ulist'[i]? = some u' → vlist'[j]? = some v' → v'.qnums[0]? = some u'.qnum1 := by
     intro u' v' h1 h2
     rw [hui] at h1; rw [hvj] at h2
@@ -254,11 +257,37 @@ theorem partitionStep_inv (done : List (HalfChain × κ)) (p p' : Partition κ) 
         by_cases hc : p.vlist.contains v = true
         · rw [if_pos hc] at hcv; cases hcv; simp at this
         · rw [if_neg hc] at hcv; cases hcv; simp at this)
+  have huedge_old : ∀ i', i' < p.ulist.length → ∃ j', (i', j') ∈ p.edges := hI.uedge
+  have hui_u : ∀ i', i' < ulist'.length → i' < p.ulist.length ∨ i' = i := by
+    intro i' hi'
+    by_cases hc : p.ulist.contains u = true
+    · rw [if_pos hc] at hcu; cases hcu; exact Or.inl hi'
+    · rw [if_neg hc] at hcu; cases hcu
+      simp only [length_append, length_singleton] at hi'
+      omega
+  have hhc_old : ∀ hc ∈ done, ∃ e ∈ p.edges, ∃ u', ulist'[e.1]? = some u' ∧ u'.nidl = hc.1.nidl := by
+    intro hc hhc
+    obtain ⟨e, he, u', hu', hn'⟩ := hI.hcedge hc hhc
+    refine ⟨e, he, u', ?_, hn'⟩
+    rw [hexu, getElem?_append_left (hI.range e he).1]
+    exact hu'
+  have hunidl : u.nidl = chain.nidl := by rw [← hu]
   by_cases hce : p.edges.contains (i, j) = true
   · rw [if_pos hce, pure_ok_iff] at h
     subst h
     have hmem : (i, j) ∈ p.edges := by simpa using hce
-    refine ⟨?_, hI.nodup, hrange, ?_, husrc, hvsrc, ?_, hun, hvn⟩
+    refine ⟨?_, hI.nodup, hrange, ?_, husrc, hvsrc, ?_, hun, hvn, fun _ => ne_nil_of_mem hmem, ?_, ?_⟩
+    rotate_left 3
+    · intro i' hi'
+      rcases hui_u i' hi' with hi' | rfl
+      · exact huedge_old i' hi'
+      · exact ⟨j, hmem⟩
+    · intro hc hhc
+      rcases mem_append.1 hhc with hhc | hhc
+      · exact hhc_old hc hhc
+      · simp only [mem_singleton] at hhc
+        subst hhc
+        exact ⟨(i, j), hmem, u, hui, hunidl⟩
     · simp only [map_map]
       rw [← hI.keys]
       apply map_congr_left
@@ -283,7 +312,20 @@ theorem partitionStep_inv (done : List (HalfChain × κ)) (p p' : Partition κ) 
   · rw [if_neg hce, pure_ok_iff] at h
     subst h
     have hmem : (i, j) ∉ p.edges := by simpa using hce
-    refine ⟨?_, ?_, ?_, ?_, husrc, hvsrc, ?_, hun, hvn⟩
+    refine ⟨?_, ?_, ?_, ?_, husrc, hvsrc, ?_, hun, hvn, fun _ => by simp, ?_, ?_⟩
+    rotate_left 5
+    · intro i' hi'
+      rcases hui_u i' hi' with hi' | rfl
+      · obtain ⟨j', hj'⟩ := huedge_old i' hi'
+        exact ⟨j', mem_append_left _ hj'⟩
+      · exact ⟨j, by simp⟩
+    · intro hc hhc
+      rcases mem_append.1 hhc with hhc | hhc
+      · obtain ⟨e, he, hrest⟩ := hhc_old hc hhc
+        exact ⟨e, mem_append_left _ he, hrest⟩
+      · simp only [mem_singleton] at hhc
+        subst hhc
+        exact ⟨(i, j), by simp, u, hui, hunidl⟩
     · simp [hI.keys]
     · exact nodup_append.2 ⟨hI.nodup, by simp, by
         intro a ha b hb
@@ -316,7 +358,8 @@ theorem sitePartition_inv (hs : List HalfChain) (cs : List κ) (p : Partition κ
     (h : sitePartition hs cs = .ok p) : PInv (hs.zip cs) p := by
   unfold sitePartition at h
   have := foldlM_inv (fun p (cc : HalfChain × κ) => partitionStep p cc.1 cc.2) PInv (hs.zip cs) [] _ p
-    ⟨rfl, by simp, by simp, by intro φ; simp [hsumφ, psum], by simp, by simp, by simp, by simp, by simp⟩
+    ⟨rfl, by simp, by simp, by intro φ; simp [hsumφ, psum], by simp, by simp, by simp, by simp, by simp,
+      by simp, by simp, by simp⟩
     (fun d a b b' hI hb => partitionStep_inv d b b' a hI hb) h
   simpa using this
 
